@@ -17763,7 +17763,8 @@ class HFSM2_EMPTY_BASES InstanceT<
 							>
 						  , TApex
 						> final
-	: public			RC_<
+	: public			RNGT<TUtility>
+	, public			RC_<
 							G_<
 								NFeatureTag
 							  , TContext
@@ -17778,7 +17779,6 @@ class HFSM2_EMPTY_BASES InstanceT<
 							>
 						  , TApex
 						>
-	, public			RNGT<TUtility>
 {
 	using Base =		RC_<
 							G_<
@@ -17808,10 +17808,10 @@ public:
 public:
 	HFSM2_CONSTEXPR(14)	explicit InstanceT(Context& context
 										 HFSM2_IF_LOG_INTERFACE(, Logger* const logger = nullptr))	noexcept
-		: Base{context
+		: RNGT<TUtility>{0}
+		, Base{context
 			 , static_cast<RNGT<TUtility>&>(*this)
 			 HFSM2_IF_LOG_INTERFACE(, logger)}
-		, RNGT<TUtility>{0}
 	{}
 };
 
@@ -17847,7 +17847,8 @@ class HFSM2_EMPTY_BASES InstanceT<
 							>
 						  , TApex
 						> final
-	: public			RC_<
+	: public			RNGT<TUtility>
+	, public			RC_<
 							G_<
 								NFeatureTag
 							  , EmptyContext
@@ -17862,7 +17863,6 @@ class HFSM2_EMPTY_BASES InstanceT<
 							>
 						  , TApex
 						>
-	, public RNGT<TUtility>
 {
 	using Base =		RC_<
 							G_<
@@ -17889,9 +17889,9 @@ public:
 
 public:
 	HFSM2_CONSTEXPR(14)	explicit InstanceT(HFSM2_IF_LOG_INTERFACE(Logger* const logger = nullptr))	noexcept
-		: Base{static_cast<RNGT<TUtility>&>(*this)
+		: RNGT<TUtility>{0}
+		, Base{static_cast<RNGT<TUtility>&>(*this)
 			 HFSM2_IF_LOG_INTERFACE(, logger)}
-		, RNGT<TUtility>{0}
 	{}
 };
 
